@@ -785,6 +785,24 @@ pub fn run_block_check(id: &str, tier: &str, seed: u64) -> i32 {
         let e = violations.entry(v.signature.clone()).or_insert((0, format!("manager simulation seed {rs} profile {prof}: {}", v.detail)));
         e.0 += 1;
     }
+    let mut e2e_cov = Value::Null;
+    let mut inconclusive: Vec<String> = vec![];
+    let mut e2e_evals: BTreeMap<String, u64> = BTreeMap::new();
+    if let Ok(bin) = std::env::var("VMON_PLUGIN_BIN") {
+        let r = crate::e2e_checks::c20_e2e(&bin, seed, if thorough { 200 } else { 24 }, if thorough { 16 } else { 0 });
+        e2e_cov = r.coverage;
+        for (k, v) in r.violations {
+            violations.insert(k, v);
+        }
+        e2e_evals = r.evals;
+        let slow = r.inconclusive.iter().filter(|x| x.contains("too slow")).count();
+        if slow * 4 > 24 {
+            inconclusive.push(format!("{slow} E2E height sessions were too slow to judge"));
+        }
+        inconclusive.extend(r.inconclusive.into_iter().filter(|x| !x.contains("too slow")));
+    } else {
+        inconclusive.push("plugin binary not provided".into());
+    }
     conclude_simple(
         Simple {
             id,
@@ -794,15 +812,15 @@ pub fn run_block_check(id: &str, tier: &str, seed: u64) -> i32 {
             engine: "block",
             evaluations: st.runs + agg.runs,
             distinct: st.traces.len() as u64,
-            evals: st.evals.iter().map(|(k, v)| (k.to_string(), *v)).collect(),
+            evals: st.evals.iter().map(|(k, v)| (k.to_string(), *v)).chain(e2e_evals.into_iter()).collect(),
             classes: st.classes.iter().map(|(k, v)| (k.to_string(), v.len() as u64)).collect(),
             violations,
             samples: st.samples.iter().map(|s| json!(s)).collect(),
-            rules: vec!["R20a", "R20b"],
+            rules: vec!["R20a", "R20b", "R20a-e2e"],
             rule_text: "random seeded schedules against the real BlockWatcher: getinfo polls answered with fresh or stale snapshots, late, or failing; block_added delivered, lost, delayed, duplicated, reordered, stale or zero; time jumps; then a calm phase (height stable, notifications lost, polls answered at once) of one poll interval; a case is one schedule; distinct = distinct sequences of (step kind, outstanding polls, delayed notifications, behind-or-not)",
-            extra: json!({"block_level_runs": st.runs, "environment_events": st.steps, "manager_level_runs_with_passive_R20a": agg.runs, "manager_level_R20a_evaluations": agg.stats.evals.get("R20a").copied().unwrap_or(0)}),
-            assumptions: vec!["getinfo replies carry the height at the instant the node evaluated the call (snapshot), delivery may be late".into(), "the first poll (plugin start-up) succeeds; a failing first poll makes the real main() exit, which is outside C20".into()],
-            inconclusive: vec![],
+            extra: json!({"block_level_runs": st.runs, "environment_events": st.steps, "manager_level_runs_with_passive_R20a": agg.runs, "manager_level_R20a_evaluations": agg.stats.evals.get("R20a").copied().unwrap_or(0), "e2e_height_sessions(real binary: block_added through plugin.rs, polls through rpc.rs)": e2e_cov}),
+            assumptions: vec!["getinfo replies carry the height at the instant the node evaluated the call (snapshot), delivery may be late".into(), "the first poll (plugin start-up) succeeds; a failing first poll makes the real main() exit, which is outside C20".into(), "E2E: the height used is inferred from pay.maxdelay = expiry - height - safety delta".into()],
+            inconclusive,
             exhaustive: None,
         },
         t0,
